@@ -18,6 +18,7 @@ import (
 
 type wireCase struct {
 	Labels [][]byte
+	D      dirty // the buffer the packs go into (dirty_test.go); zero value: a fresh buffer, offset 0
 }
 
 func nearLimit(n wm.Name) bool {
@@ -51,6 +52,7 @@ func checkWire(c wireCase) error {
 		}
 	}
 	w := wm.EncodeName(n)
+	d := c.D.norm()
 	if !n.Valid() {
 		// the limit "that the unpacker enforces": more than 255 octets must be refused
 		pbt.Note(w, true, fmt.Sprintf("wirelen=%d", lenBucket(len(w))), "over-long-wire")
@@ -59,7 +61,7 @@ func checkWire(c wireCase) error {
 		}
 		return nil
 	}
-	pbt.Note(w, nearLimit(n) || hasEscapeWorthy(n), fmt.Sprintf("wirelen=%d", lenBucket(len(w))), fmt.Sprintf("labels=%d", min(len(n), 5)))
+	pbt.Note(w, nearLimit(n) || hasEscapeWorthy(n), fmt.Sprintf("wirelen=%d", lenBucket(len(w))), fmt.Sprintf("labels=%d", min(len(n), 5)), d.class())
 	// the name sits behind a few unrelated octets, so offsets are exercised too
 	msg := append([]byte{0xde, 0xad, 0xbe}, w...)
 	msg = append(msg, 0x55)
@@ -74,13 +76,12 @@ func checkWire(c wireCase) error {
 	if uerr != nil || !fq || !back.Equal(n) {
 		return pbt.Errf("unpacked text %q does not denote the wire labels %q (unescape: %q fq=%v err=%v)", s, n, back, fq, uerr)
 	}
-	buf := make([]byte, 300)
-	poff, err := dns.PackDomainName(s, buf, 0, nil, false)
+	buf, poff, err := d.packName(s, len(w))
 	if err != nil {
-		return pbt.Errf("PackDomainName rejects %q, which UnpackDomainName produced: %v", s, err)
+		return pbt.Errf("PackDomainName rejects %q, which UnpackDomainName produced: %v (%v)", s, err, d)
 	}
-	if !bytes.Equal(buf[:poff], w) {
-		return pbt.Errf("text %q packs to %x, original wire %x", s, buf[:poff], w)
+	if verr := d.verify(fmt.Sprintf("PackDomainName(%q)", short(s)), buf, poff, w); verr != nil {
+		return verr
 	}
 	if _, ok := dns.IsDomainName(s); !ok {
 		return pbt.Errf("IsDomainName rejects %q, which UnpackDomainName produced", s)
@@ -108,8 +109,12 @@ func checkWire(c wireCase) error {
 	if len(n) == 0 {
 		raw = "."
 	}
-	if roff, err := dns.PackDomainName(raw, buf, 0, nil, false); err != nil || !bytes.Equal(buf[:roff], w) {
-		return pbt.Errf("PackDomainName of the raw spelling %q: err=%v, octets %x want %x", short(raw), err, buf[:max(roff, 0)], w)
+	rbuf, roff, err := d.packName(raw, len(w))
+	if err != nil {
+		return pbt.Errf("PackDomainName of the raw spelling %q: err=%v (%v)", short(raw), err, d)
+	}
+	if verr := d.verify(fmt.Sprintf("PackDomainName(%q) (raw spelling)", short(raw)), rbuf, roff, w); verr != nil {
+		return verr
 	}
 	printed := map[string]string{
 		"Name.String()":      dns.Name(raw).String(),
@@ -148,10 +153,21 @@ func lenBucket(n int) int {
 }
 
 func genWire(t *rapid.T) wireCase {
-	if rapid.IntRange(0, 2).Draw(t, "long") == 0 {
-		return wireCase{Labels: uniformly(t, gen.NameOfWireLen(t, rapid.IntRange(245, 262).Draw(t, "wl"), gen.NameOpts{}))}
+	d := genDirty(t)
+	switch rapid.IntRange(0, 11).Draw(t, "long") {
+	case 0, 1, 2, 3:
+		return wireCase{Labels: uniformly(t, gen.NameOfWireLen(t, rapid.IntRange(245, 262).Draw(t, "wl"), gen.NameOpts{})), D: d}
+	case 4:
+		// the names whose encoding consists (almost) only of octets that a fresh buffer holds
+		// anyway: the root, and one or two labels of NUL octets
+		k := rapid.IntRange(0, 2).Draw(t, "nuls")
+		var n wm.Name
+		for i := 0; i < k; i++ {
+			n = append(n, make([]byte, rapid.IntRange(1, 3).Draw(t, "nullen")))
+		}
+		return wireCase{Labels: n, D: d}
 	}
-	return wireCase{Labels: uniformly(t, gen.Name(t, gen.NameOpts{MaxLabs: 10, Long: rapid.Bool().Draw(t, "biaslong")}))}
+	return wireCase{Labels: uniformly(t, gen.Name(t, gen.NameOpts{MaxLabs: 10, Long: rapid.Bool().Draw(t, "biaslong")})), D: d}
 }
 
 // uniformly sometimes rewrites every octet of the name to one escaping class (all need \DDD, all
@@ -171,7 +187,25 @@ func uniformly(t *rapid.T, n wm.Name) wm.Name {
 }
 
 // all 256 octet values x first/middle/last position x first/middle/last label
-func eachOctetPosition(emit func(wireCase)) {
+func eachOctetPosition(emit0 func(wireCase)) {
+	// the destination buffers cycle through dirtyCycle
+	k := 0
+	emit := func(c wireCase) {
+		c.D = dirtyOf(k)
+		k++
+		emit0(c)
+	}
+	// the names of no or few labels (the root first of all) over every value the destination octets
+	// can hold beforehand
+	for v := 0; v < 256; v++ {
+		for _, n := range []wm.Name{{}, {{0}}, {{'a'}}, {{0, 0}, {0}}} {
+			for _, off := range []int{0, 1, 7} {
+				for mp := 0; mp < 3; mp++ {
+					emit0(wireCase{Labels: n, D: dirty{Pat: []byte{byte(v)}, Off: off, Slack: off % 2, Map: mp}})
+				}
+			}
+		}
+	}
 	// every total length around the limit, as maximal labels, filled with one octet of each escaping
 	// class (plain: 1 character per octet, \c: 2, \DDD: 4 - the longest text a name can have is the
 	// 255-octet name of four labels in which every octet needs \DDD: 1004 characters)
@@ -211,6 +245,7 @@ func eachOctetPosition(emit func(wireCase)) {
 
 type textCase struct {
 	S string
+	D dirty // the buffer the pack goes into (dirty_test.go); zero value: a fresh buffer, offset 0
 }
 
 type verdict struct {
@@ -265,8 +300,21 @@ func refJudge(s string) verdict {
 
 func checkText(c textCase) error {
 	s := c.S
+	d := c.D.norm()
 	if s == "" {
-		return nil // documented special case (RDATA-less records)
+		// Not a name at all: the library's representation of an absent name field (zero-value
+		// records, RDATA-less update records - the repository's TestNoRdataPack pins it). The
+		// statement speaks of names; what it leaves to check is that no name is emitted for it:
+		// either the packer refuses, or it writes nothing and does not advance.
+		pbt.Note(nil, false, "empty-string", d.class())
+		b, off1, err := d.packName(s, 0)
+		if err == nil {
+			if off1 != d.Off {
+				return pbt.Errf("PackDomainName(\"\") into %v returns offset %d and no error: the empty string is not a fully qualified name, nothing may be emitted for it", d, off1)
+			}
+			return d.untouched("PackDomainName(\"\")", b, d.Off, d.Off)
+		}
+		return nil
 	}
 	v := refJudge(s)
 	if v.ddd {
@@ -285,12 +333,17 @@ func checkText(c textCase) error {
 	if !v.fq {
 		cls = "not-fq"
 	}
-	pbt.Note([]byte(s), esc || near, cls)
+	pbt.Note([]byte(s), esc || near, cls, d.class())
 	if esc || near {
 		pbt.Sample(cls, s)
 	}
-	buf := make([]byte, 2048)
-	off, perr := dns.PackDomainName(s, buf, 0, nil, false)
+	// a valid name gets exactly the room it needs (plus the generated slack), anything else more
+	// than any reading of the text could need
+	need := len(s) + 2
+	if v.valid && v.fq {
+		need = v.name.WireLen()
+	}
+	buf, off, perr := d.packName(s, need)
 	if !v.fq {
 		if perr == nil {
 			return pbt.Errf("PackDomainName accepts %q, which is not fully qualified", short(s))
@@ -316,13 +369,13 @@ func checkText(c textCase) error {
 			return pbt.Errf("IsDomainName(%q) counts %d labels, want %d", short(s), labels, len(v.name))
 		}
 		w := wm.EncodeName(v.name)
-		if !bytes.Equal(buf[:off], w) {
-			return pbt.Errf("PackDomainName(%q)=%x want %x", short(s), buf[:off], w)
+		if verr := d.verify(fmt.Sprintf("PackDomainName(%q)", short(s)), buf, off, w); verr != nil {
+			return verr
 		}
 	}
 	// (4) whatever the packer emits, the unpacker accepts
-	if perr == nil {
-		if _, _, err := dns.UnpackDomainName(buf[:off], 0); err != nil {
+	if perr == nil && off >= d.Off && off <= len(buf) {
+		if _, _, err := dns.UnpackDomainName(buf[:off], d.Off); err != nil {
 			return pbt.Errf("PackDomainName(%q) emitted %d octets that UnpackDomainName rejects: %v", short(s), off, err)
 		}
 	}
@@ -382,12 +435,18 @@ func genText(t *rapid.T) textCase {
 			s = s[:len(s)-1] + `\.` // escaped final dot: not fully qualified
 		}
 	}
-	return textCase{S: s}
+	return textCase{S: s, D: genDirty(t)}
 }
 
 var textUnits = []string{"a", "A", "0", ".", `\`, `\.`, `\\`, `\065`, `\0`, `\06`, "\xc3\xa9"}
 
-func eachSmallText(maxUnits int, emit func(textCase)) {
+func eachSmallText(maxUnits int, emit0 func(textCase)) {
+	k := 0
+	emit := func(c textCase) {
+		c.D = dirtyOf(k)
+		k++
+		emit0(c)
+	}
 	var rec func(cur string, used int)
 	rec = func(cur string, used int) {
 		if cur != "" {
@@ -404,7 +463,17 @@ func eachSmallText(maxUnits int, emit func(textCase)) {
 }
 
 // systematic sweep: total wire length 1..260, as one run of maximal labels, plain and fully escaped
-func eachLength(emit func(textCase)) {
+func eachLength(emit0 func(textCase)) {
+	k := 0
+	emit := func(c textCase) {
+		c.D = dirtyOf(k)
+		k++
+		emit0(c)
+	}
+	for i := range dirtyCycle {
+		emit0(textCase{S: "", D: dirtyOf(i)})
+		emit0(textCase{S: ".", D: dirtyOf(i)})
+	}
 	for wl := 2; wl <= 262; wl++ {
 		for variant := 0; variant < 3; variant++ {
 			left := wl - 1
@@ -480,6 +549,7 @@ func init() {
 type behindCase struct {
 	Labels [][]byte // the whole name
 	Cut    int      // the suffix Labels[Cut:] is packed first and is what the pointer can refer to
+	D      dirty    // the buffer both packs go into (Map is not used: there is always a map here)
 }
 
 func checkBehindPointer(c behindCase) error {
@@ -497,12 +567,18 @@ func checkBehindPointer(c behindCase) error {
 		return nil
 	}
 	valid := n.Valid()
-	pbt.Note(wm.EncodeName(n), true, fmt.Sprintf("valid=%v", valid), fmt.Sprintf("wirelen=%d", lenBucket(n.WireLen())))
-	buf := make([]byte, 1024)
+	d := c.D.norm()
+	pbt.Note(wm.EncodeName(n), true, fmt.Sprintf("valid=%v", valid), fmt.Sprintf("wirelen=%d", lenBucket(n.WireLen())), d.class())
+	// room for the suffix and for the whole name written out (it takes less: some labels and a pointer)
+	buf := d.buf(suffix.WireLen() + n.WireLen() + 2)
 	comp := map[string]int{}
-	off, err := dns.PackDomainName(wm.EscName(suffix), buf, 0, comp, true)
+	off, err := dns.PackDomainName(wm.EscName(suffix), buf, d.Off, comp, true)
 	if err != nil {
 		return pbt.Errf("PackDomainName(%q) failed: %v", short(wm.EscName(suffix)), err)
+	}
+	// nothing to point to yet: the first name can only be written out
+	if verr := d.verify(fmt.Sprintf("PackDomainName(%q) with an empty compression map", short(wm.EscName(suffix))), buf, off, wm.EncodeName(suffix)); verr != nil {
+		return verr
 	}
 	off2, err := dns.PackDomainName(wm.EscName(n), buf, off, comp, true)
 	if valid != (err == nil) {
@@ -515,6 +591,9 @@ func checkBehindPointer(c behindCase) error {
 		}
 		if _, _, uerr := dns.UnpackDomainName(buf[:off2], off); uerr != nil {
 			return pbt.Errf("PackDomainName emitted a compressed name that UnpackDomainName rejects: %v", uerr)
+		}
+		if verr := d.untouched("the two PackDomainName calls", buf, d.Off, off2); verr != nil {
+			return verr
 		}
 	}
 	// the same through a whole message
@@ -540,7 +619,7 @@ func genBehind(t *rapid.T) behindCase {
 	if len(n) < 2 {
 		n = append(wm.Name{[]byte("x")}, n...)
 	}
-	return behindCase{Labels: n, Cut: rapid.IntRange(1, len(n)-1).Draw(t, "cut")}
+	return behindCase{Labels: n, Cut: rapid.IntRange(1, len(n)-1).Draw(t, "cut"), D: genDirty(t)}
 }
 
 func init() {
